@@ -69,6 +69,12 @@ var fxRegexes = []fxRegex{
 	{"([a-z]*) \\w*", "$1 ***"},
 	{"([一-龥])[一-龥]([一-龥])", "$1＊$2"},
 	{"", "-"},
+	// plain-word patterns (no metacharacter) keep the template meaning of the replacement
+	{"zhang", "[$0]"},
+	{"789", "<$1>"},
+	{"san", "$$1"},
+	{"1", "${0}x"},
+	{"a", "\\$0"},
 	{"(", "x"},      // bad regular expression
 	{"a{2,1}", "x"}, // bad regular expression
 }
